@@ -7,7 +7,7 @@ pk = {'dht':'.','bep44':'bep44','getput':'exts/getput','traversal':'traversal','
 for d in sorted(glob.glob(root+'/C*/m*')):
     prop = d.split('/')[-2]; m = d.split('/')[-1]
     if not os.path.exists(d+'/confirm.txt'): continue
-    conf = open(d+'/confirm.txt').read()
+    conf = open(d+'/confirm.txt', errors='replace').read()
     mo = re.search(r'CONFIRM demo_without=(\d+) suite_with=(\d+) demo_with=(\d+)', conf)
     if not mo: print('no confirm', d); continue
     dw, sw, dm = map(int, mo.groups())
@@ -26,6 +26,7 @@ for d in sorted(glob.glob(root+'/C*/m*')):
         shutil.copy(f, out+'/'+os.path.basename(f)); demos.append(os.path.basename(f))
     shutil.copy(d+'/meta.md', out+'/meta.md')
     pkgname = re.search(r'^package (\w+)', open(d+'/verif_demo_test.go').read(), re.M).group(1)
+    if pkgname.endswith('_test'): pkgname = pkgname[:-5]
     md = open(d+'/meta.md').read()
     files = sorted(set(re.findall(r'^\+\+\+ b/(\S+)', open(d+'/patch.diff').read(), re.M)))
     meta = {
